@@ -305,6 +305,67 @@ def struct_writes(repo):
                     res.append((rel, name, ty, lv))
     return res
 
+# ---- which thread touches which field of the writer / sorter (C14) ------------------------------------------------
+ACCESS_FILES = [('mtbl/writer.c', 'mtbl_writer'), ('mtbl/sorter.c', 'mtbl_sorter')]
+
+def field_accesses(repo):
+    """(file, function, struct, field, kind, statement index, guard): every syntactic access to a field of the writer /
+    sorter structure through a variable of type `struct T *` (or (*v)-> for a `struct T **` parameter).
+    kind: W assignment / increment, A address taken, R anything else (a read of the field; for a pointer field also every
+    use of the pointee through it).  field: up to two components (m.count_entries).  guard: 'nopool' when the statement
+    lies in the else-branch of `if (v->pool != NULL)` (code that runs only when there is no handler thread), else ''.
+    Also (file, function, '', '<join>', 'J', statement index, ''): the statements that wait for the handler thread
+    (result_handler_destroy) or call a function that does (_mtbl_writer_finish)."""
+    res = []
+    for rel, sty in ACCESS_FILES:
+        try:
+            src = strip_comments(rd(repo, rel))
+        except OSError:
+            res.append((rel, '<missing>', sty, '', '', 0, 0, '')); continue
+        for name, sig, body in functions(src):
+            vars_ = set()
+            for mm in re.finditer(r'struct\s+' + sty + r'\s*\*+\s*(?:const\s+)?(\w+)', sig + ';' + body):
+                vars_.add(mm.group(1))
+            # a void * closure cast to the structure: struct T *x = clos;
+            stmts = statements(body)
+            # else-branches of the pool test
+            nopool = [False] * len(stmts)
+            i = 0
+            while i < len(stmts):
+                d, t = stmts[i]
+                if re.match(r'if\((\w+)->pool!=NULL\)$', t):
+                    j = i + 1
+                    while j < len(stmts) and stmts[j][0] > d: j += 1          # the then-branch
+                    if j < len(stmts) and stmts[j] == (d, 'else'):
+                        k = j + 1
+                        while k < len(stmts) and stmts[k][0] > d:
+                            nopool[k] = True; k += 1
+                i += 1
+            for idx, (d, t) in enumerate(stmts):
+                if re.search(r'\bresult_handler_destroy\(|\b_mtbl_writer_finish\(', t):
+                    # the condition of the innermost enclosing if (empty at depth 0 or under another construct)
+                    encl = ''
+                    k = idx - 1
+                    while k >= 0:
+                        if stmts[k][0] == d - 1:
+                            encl = stmts[k][1] if stmts[k][1].startswith('if(') else ''
+                            break
+                        k -= 1
+                    res.append((rel, name, '', '<join>', 'J', idx, d, encl if d > 0 else ''))
+                for mm in re.finditer(r'(&?)(?:\(\*(\w+)\)|(?<![\w>.])(\w+))->(\w+)((?:\.\w+)?)((?:\+\+|--|(?:[+\-|&^*/%]|<<|>>)?=(?!=))?)', t):
+                    v = mm.group(2) or mm.group(3)
+                    if v not in vars_:
+                        continue
+                    field = mm.group(4) + (mm.group(5) if mm.group(4) == 'm' else '')
+                    pre = t[max(0, mm.start() - 2):mm.start()]
+                    kind = 'A' if mm.group(1) == '&' else ('W' if mm.group(6) else 'R')
+                    if pre.endswith('++') or pre.endswith('--'):
+                        kind = 'W'
+                    ent = (rel, name, sty, field, kind, idx, d, 'nopool' if nopool[idx] else '')
+                    if ent not in res:
+                        res.append(ent)
+    return res
+
 def coq_str(s):
     return '"' + s.replace('"', '""') + '"'
 
@@ -371,6 +432,10 @@ def main():
     out.append('(* assignments through struct pointers / fields whose address is taken, in reader.c and block.c: (file, function, struct, lvalue) *)')
     out.append('Definition STRUCT_WRITES : list (string * string * string * string) :=\n  [' +
                ';\n   '.join('(%s, %s, %s, %s)' % tuple(coq_str(x) for x in w) for w in struct_writes(repo)) + '].')
+    out.append('(* syntactic accesses to the fields of struct mtbl_writer / struct mtbl_sorter: (file, function, struct, field, kind, statement index, brace depth, guard) *)')
+    out.append('Definition FIELD_ACCESSES : list (string * string * string * string * string * nat * nat * string) :=\n  [' +
+               ';\n   '.join('(%s, %s, %s, %s, %s, %d, %d, %s)' % (coq_str(a[0]), coq_str(a[1]), coq_str(a[2]), coq_str(a[3]), coq_str(a[4]), a[5], a[6], coq_str(a[7]))
+                              for a in field_accesses(repo)) + '].')
     ch = write_if_changed(os.path.join(outdir, 'Ties.v'), '\n'.join(out) + '\n')
     missing = [n for n, v in vals.items() if v == [(0, '<missing>')]]
     print('Ties.v %s%s' % ('updated' if ch else 'unchanged', (', functions not found: ' + ', '.join(missing)) if missing else ''))
